@@ -12,9 +12,12 @@ structure D where
   xin : Id := 0
   fee : Nat := 0
   opq : Nat := 0
+  badAkeys : List Id := []
+  badDeps : List Id := []
 
 def D.params (d : D) : Params :=
-  { cap := fun a => (aget d.caps a).getD 0, xin := d.xin, claimFee := d.fee }
+  { cap := fun a => (aget d.caps a).getD 0, xin := d.xin, claimFee := d.fee,
+    akeyOk := fun k => !d.badAkeys.contains k, depTxOk := fun k => !d.badDeps.contains k }
 
 def splitOn1 (s : String) (c : Char) : List String :=
   if s = "-" then [] else s.split (· == c) |>.toList |>.map (·.toString)
@@ -125,6 +128,14 @@ def step (d : D) (t : List String) : D × String :=
     match a.toNat?, c.toNat? with
     | some a, some c => ({ d with caps := aset d.caps a c, assets := d.assets ++ [a] }, "ok")
     | _, _ => (d, "bad-op")
+  | ["badakey", n] =>
+    match n.toNat? with
+    | some n => ({ d with badAkeys := n :: d.badAkeys }, "ok")
+    | none => (d, "bad-op")
+  | ["baddep", n] =>
+    match n.toNat? with
+    | some n => ({ d with badDeps := n :: d.badDeps }, "ok")
+    | none => (d, "bad-op")
   | ["opaque", n] =>
     match n.toNat? with
     | some n => ({ d with opq := n }, "ok")
